@@ -22,6 +22,9 @@ struct Peer {
     quit_delay_ms: AtomicUsize,
     quits: AtomicUsize,
     stop: AtomicBool,
+    /// wait this long before the greeting
+    greet_delay_ms: AtomicUsize,
+    accepted: AtomicUsize,
 }
 
 fn serve(stream: TcpStream, id: usize, p: Arc<Peer>) {
@@ -31,6 +34,12 @@ fn serve(stream: TcpStream, id: usize, p: Arc<Peer>) {
         Err(_) => return,
     };
     let mut r = BufReader::new(stream);
+    p.accepted.fetch_add(1, Ordering::SeqCst);
+    let gd = p.greet_delay_ms.load(Ordering::SeqCst) as u64;
+    let t0 = Instant::now();
+    while t0.elapsed() < Duration::from_millis(gd) && !p.stop.load(Ordering::SeqCst) {
+        std::thread::sleep(Duration::from_millis(2));
+    }
     let _ = w.write_all(b"220 peer ESMTP\r\n");
     let mut in_data = false;
     loop {
@@ -269,9 +278,68 @@ fn atreturn(client: &str, k: usize) -> Option<Vec<String>> {
     Some(vec![out.join(" ")])
 }
 
+/// `shut slowconnect <s|a>`: `shutdown` is called while a sender is still connecting (the peer greets after 1.5 s): it
+/// returns at once — the pool's lock is not held while a connection is being set up. Reports the time `shutdown` took
+/// and the result of the send that was in flight.
+fn slowconnect(client: &str) -> Option<Vec<String>> {
+    let p = Arc::new(Peer::default());
+    p.greet_delay_ms.store(1500, Ordering::SeqCst);
+    let (port, _srv) = start(p.clone())?;
+    let out = match client {
+        "s" => {
+            let t = SmtpTransport::builder_dangerous(crate::util::lo()).port(port).timeout(Some(Duration::from_secs(8))).build();
+            let t2 = t.clone();
+            let sender = std::thread::spawn(move || describe_pub(&t2.send_raw(&env(), b"one\r\n")));
+            if !wait_until(|| p.accepted.load(Ordering::SeqCst) == 1, 5000) {
+                return Some(vec!["setup-failed".into()]);
+            }
+            std::thread::sleep(Duration::from_millis(30));
+            let a = Instant::now();
+            t.shutdown();
+            let t1 = a.elapsed().as_millis();
+            let r0 = sender.join().ok()?;
+            vec![t1.to_string(), r0]
+        }
+        "a" => {
+            let rt = tokio::runtime::Builder::new_multi_thread().worker_threads(4).enable_all().build().ok()?;
+            let p2 = p.clone();
+            let v = rt.block_on(async move {
+                let p = p2;
+                let t: AsyncSmtpTransport<Tokio1Executor> =
+                    AsyncSmtpTransport::<Tokio1Executor>::builder_dangerous(crate::util::lo()).port(port).timeout(Some(Duration::from_secs(8))).build();
+                let t2 = t.clone();
+                let sender = tokio::spawn(async move { describe_pub(&t2.send_raw(&env(), b"one\r\n").await) });
+                let t0 = Instant::now();
+                while p.accepted.load(Ordering::SeqCst) != 1 && t0.elapsed() < Duration::from_secs(5) {
+                    tokio::time::sleep(Duration::from_millis(1)).await;
+                }
+                if p.accepted.load(Ordering::SeqCst) != 1 {
+                    return vec!["setup-failed".to_string()];
+                }
+                tokio::time::sleep(Duration::from_millis(30)).await;
+                let a = Instant::now();
+                let r = tokio::time::timeout(Duration::from_secs(6), t.shutdown()).await;
+                let t1 = if r.is_ok() { a.elapsed().as_millis() } else { 99999 };
+                let r0 = match tokio::time::timeout(Duration::from_secs(6), sender).await {
+                    Ok(Ok(r)) => r,
+                    _ => "HANG".into(),
+                };
+                vec![t1.to_string(), r0]
+            });
+            rt.shutdown_timeout(Duration::from_millis(300));
+            v
+        }
+        _ => return None,
+    };
+    p.stop.store(true, Ordering::SeqCst);
+    let _ = TcpStream::connect((crate::util::lo(), port));
+    Some(vec![out.join(" ")])
+}
+
 pub fn shut(args: &[&str]) -> Option<Vec<String>> {
     match *args.first()? {
         "slowquit" => slowquit(args.get(1)?),
+        "slowconnect" => slowconnect(args.get(1)?),
         "atreturn" => atreturn(args.get(1)?, args.get(2)?.parse().ok()?),
         _ => None,
     }
